@@ -21,7 +21,8 @@ func init() {
 			"D4 AddValue appends under the lock before it publishes the token, RemoveHead takes the token before it pops and pops only when the receive reported ok; " +
 			"D5 the channel's buffer size and the stored capacity are the same value, GetSize/IsEmpty read the channel's length." +
 			" Also: in RemoveHead every change of the value list lies on the ok edge of the token receive and the value delivered is the removal's own result (not a separate read, not the channel's payload); a constructor that preloads tokens in a counting loop sends exactly one per initial value; a close guarded by a state field is matched by a reset wherever a new channel is installed." +
-			" Round 7: RemoveAll replaces the closable channel on every path (emptiness does not excuse a closed channel); no send on the closable channel inside a lock region whose Unlock is not deferred; a queue literal whose list is built from the constructor's argument is accompanied by token sends; re-entry through package-level bracket helpers and read locks.",
+			" Round 7: RemoveAll replaces the closable channel on every path (emptiness does not excuse a closed channel); no send on the closable channel inside a lock region whose Unlock is not deferred; a queue literal whose list is built from the constructor's argument is accompanied by token sends; re-entry through package-level bracket helpers and read locks." +
+			" Rounds 8-9: no public method but RemoveAll reaches an assignment of the token channel; a count read in one critical section does not bound a slice taken in another.",
 		NotDecided:  "linearizability, FIFO order across producers, exactly-once delivery, the blocking bound: all quantify over interleavings; D1-D4 are the race-freedom and ordering preconditions of such an argument, nothing more.",
 		Run:         runC04,
 		Assumptions: []string{"Go memory model: accesses guarded by one mutex do not race; channel operations are synchronised by the runtime"},
